@@ -50,7 +50,11 @@ def run_demo():
     os.makedirs(pkgdir, exist_ok=True)
     for d in demos:
         shutil.copy(d, pkgdir)
-    rc, out = sh("go test -vet=off -count=1 -run 'Mutant|Demo|Close|Send|Test' ./%s/" % dest if dest.startswith("transport/zz") else "go test -vet=off -count=1 -run 'Mutant|Demo|mutant|demo' ./%s/" % dest, wt)
+    names = []
+    for d in demos:
+        names += re.findall(r"^func (Test\w+)\(", open(d).read(), re.M)
+    pat = "^(" + "|".join(names) + ")$" if names else "."
+    rc, out = sh("go test -vet=off -count=1 -run '%s' ./%s/" % (pat, dest), wt)
     for d in demos:
         try: os.remove(os.path.join(pkgdir, os.path.basename(d)))
         except OSError: pass
